@@ -6,43 +6,68 @@ PROP = {
     "streams": [{"name": "robust"}],
     "rule": "robust: (1) exhaustive boundary matrix: every filter registered in filters/*.go (read from the source at run "
             "time) x receiver in U x argument tuples in U^arity plus one over-arity call, every comparison/boolean "
-            "operator x U x U, 31 access/loop/tag forms x U (x U), U = 21 (quick) / 56 (thorough) boundary values (typed zeros int64(0), uint(0) included); a "
+            "operator x U x U, 31 access/loop/tag forms x U (x U), U = 22 (quick) / 57 (thorough) boundary values (typed zeros "
+            "int64(0), uint(0) and an array holding a nil and a non-nil pointer included); a "
             "family of pure templates over ranges with extreme endpoints and lengths around the array-conversion bound; 299 whole templates "
             "about times ({{ t }}, t | date with and without a format, date on date strings of every modelled layout and on strings no layout "
             "accepts, times inside arrays, maps and behind pointers, date results fed to other filters) on 12 instants from the year -32873 to 36812; "
-            "(2) every sequence of <= 3 (thorough: 4) tokens of the expression lexer in 6 expression contexts; "
+            "(2) every sequence of <= 3 items of a fixed 24-item alphabet of expression tokens (not every token the lexer knows) "
+            "in 6 expression contexts; thorough adds every sequence of exactly 4 items in the first 3 contexts (output, if, assign); "
             "(3) grammar-generated templates x generated environments (all tags, filters, operators; measured "
             "parse/render success rates in input_distribution gen:*); (4) random bytes / UTF-8 / delimiter-dense sources; "
             "(5) the repository's own test templates and 4 (thorough: 40) mutants of each; (0) corpus/robust/*.case (the "
             "inputs of every defect known so far) first. Every case runs in a killable worker process under recover, "
             "GOMEMLIMIT and a heap watchdog; the time clause compares the CPU time of the case with 50x a budget "
-            "proportional to source size and spelled-out loop/range sizes, measured 3 times and scaled by a calibration "
+            "proportional to source size and spelled-out loop/range sizes; a case that overshoots is measured up to 3 times "
+            "(2 times when a run had to be killed or killed its worker) and the limit is scaled by a calibration "
             "render timed alongside (so machine load does not raise alarms); a worker that dies is restarted and the "
-            "case retried (3 deaths = process-death). A case is non-trivial when it renders non-empty output; distinct "
+            "case run once more (the worker dying in both runs = process-death; a death that does not repeat is counted, not "
+            "reported). A case is non-trivial when it renders non-empty output; distinct "
             "by case line.",
     "trusted_base": COMMON_TB,
-    "assumptions": ["the time clause is checked as a 50-fold overshoot of a generous budget in each of three measurements, relative to a calibration render"],
+    "assumptions": ["the time clause is checked as a 50-fold overshoot of a generous budget in each of up to three measurements "
+                    "(two when a run had to be killed), relative to a calibration render"],
 }
 
 TEXT = {
     "text": ('Theorem run_std_noPanic (no hypotheses): for every configuration, source, start line, environment, file layout and '
               'include fuel, the model of ParseTemplateLocation+Render under the standard filters, operators and printing never '
-              'ends in `panic`; run_result: it ends in output, a located error, or an explicit `unmodelled` marker. Proved layer '
-              'by layer: scanner total, block parser (parseStep/parseTokens_noPanic: the block-stack pop is guarded), expression '
-              'parser, compile, render tree (renderRoot_noPanic, include recursion bounded by fuel), and the whole value layer '
-              '(stdPrims: comparison, contains, lookup, conversion, call, all modelled numeric/string/array filter bodies and the '
+              'ends in `panic`; run_result (the case split on the result type that follows): it ends in output, a value of the '
+              'located-error type (that its line and path are meaningful is not part of the statement), or an explicit '
+              '`unmodelled` marker. Proved layer by layer: the scanner is a total function (Lean\'s termination check; scan_total '
+              'adds nothing to it), block parser (parseStep_noPanic/parseTokens_noPanic: the block-stack pop is guarded), expression '
+              'parser, compile, render tree (renderRoot_noPanic, include recursion bounded by fuel), and the value layer the '
+              'renderer calls (PrimsNoPanic stdPrims stdOut: ==, <, contains, values.Equal, writeObject, and ApplyFilter + '
+              'values.Call with all modelled numeric/string/array filter bodies and the '
               'value filters json, inspect, type, i.e. the model of json.Marshal and of %T: StdNoPanic, ArrNoPanic, '
               'json_inspect_type_noPanic, and the date filter, i.e. the model of tuesday.Strftime, of the calendar and of ParseDate: '
-              'dateImpls_noPanic, date_filter_noPanic, time_values_noPanic; all 48 registered filters). Go panics are explicit in the model (Res.panic: nil map write, slice bounds, reflect kind '
-              'errors, divide by zero, nil pointer dereference), so the theorem says none of those sites is reachable; '
-              "termination is Lean's own check (no `partial`). Tie: every `robust` case line is answered by the model and by the "
+              'dateImpls_noPanic, date_noPanic, time_values_noPanic; all 48 registered filters have a modelled body: '
+              'every_registered_filter_modelled; a body has to be panic-free only on '
+              'arguments typed as its registered signature says, which is what values.Call hands it). The Res.panic sites of the '
+              'model, all of them shown unreachable: the reflect accessors on a value of the wrong kind (Bool, Int, Uint, Len, map '
+              'Key, Convert to float64), Go == on uncomparable types, the string assertion of stringValue.Contains (Compare.lean), '
+              'the pop of an empty block stack (Parse.lean), and a filter body applied to arguments of the wrong Go type (badArgs). '
+              'Index and slice bounds, a write to a nil map, integer division by zero and nil-pointer dereference are NOT panic '
+              'sites of the model: lookup, conversion, the string filter bodies and the tags are written there as total functions '
+              '(division by zero is the returned error), so the theorem says nothing about them; that the code has no such panic '
+              'rests on the `robust` oracle (boundary matrix) and on the correspondence. '
+              "Termination is Lean's own check (no `partial`). Tie: every `robust` case line is answered by the model and by the "
               'real engine in a killable worker; results must agree and the real result must be output or a usable SourceError '
               'within the time budget.'),
     "design_ref": 'DESIGN.md 6 C01',
-    "note": NOTE + ('Parts of the code answered `unmodelled` (date on strings other than the five all-digit layouts and with widths above 1024, times beyond +-2^62 s, sort of more than 12 elements with an order that is not a strict weak order, '
-              'case mapping outside the modelled table, some float edge cases; counted in evidence) are covered by the oracle on '
-              'the real code only. Time/space is measured on the implementation, not proved (the model has no cost semantics).'),
-    "technique": ('Lean 4 proof (no-panic invariant by structural induction over the render tree and the value layer) + '
+    "note": NOTE + ('Parts of the code answered `unmodelled` (counted in evidence) are covered by the oracle on the real code only: '
+              'date on a string receiver that is not one of the five all-digit layouts (nor rejected by every layout at its first field), '
+              'strftime widths above 1024, instants beyond +-2^62 s, fmt of a time below an unexported struct field; an include nested deeper than the fuel (the driver runs with fuel 8, so a '
+              'cyclic include is outside the theorem; in Go it recurses without bound); a loop over a range of more than 100000 '
+              'items and the array conversion of a range of more than 10^6 items; sort of more than 12 elements when the order '
+              'is not a strict weak order or when tied elements are distinguishable (unstable sort); a custom block; pointer '
+              'identity (== of two non-nil pointers, uniq over pointers); == on struct and array values; conversion of an index '
+              'to a map\'s key type outside the modelled cases; fmt of a pointer (an address), of a pointer to a pointer and of '
+              'a map with keys of mixed dynamic type; a negative-zero literal; '
+              'case mapping outside the modelled table, some float edge cases (negative zero, overflow to Inf, float to int out '
+              'of range, math.Pow10). Time/space is measured on the implementation, not proved (the model has no cost semantics).'),
+    "technique": ('Lean 4 proof (no-panic invariant by structural induction over the render tree and the value layer, about the '
+              'panic sites the model spells out) + '
               'model/implementation correspondence + exhaustive boundary-matrix enumeration with a crash/timeout oracle on the '
               'implementation'),
 }
